@@ -938,7 +938,8 @@ def make_runner(case, mat=None, content=None, repmax=None):
             o = outs[c]
             self.pos += 1
             # the values this variation carries for the parameters that are unpacked right now
-            names = list(self.params._unpacked_parameters_set)
+            names = list(self.params._unpacked_parameters_set) + [
+                n for n in case.get('logfixed', []) if n in current_parameters.parameters]
             self.calllog.append((current_parameters.unpack_index, c, o,
                                  {n: mat.canon(n, current_parameters[n]) for n in names}))
             self.events.append(('run',) + self.calllog[-1])
@@ -1047,7 +1048,8 @@ def run_op(runner, op, tmp, before=None):
 
 def run_impl(case, scratch):
     """Run the scenario on the real code. Returns (canonical string, observations)."""
-    tmp = tempfile.mkdtemp(prefix='c05_', dir=scratch)
+    # (a scratch directory is only needed when the scenario has a results file)
+    tmp = tempfile.mkdtemp(prefix='c05_', dir=scratch) if case['file'] else None
     try:
         mat = Mat(case)
         runner = make_runner(case, mat)
@@ -1083,7 +1085,8 @@ def run_impl(case, scratch):
         obs['returned_changed'] = [w for w, o, sn in returned if snap(o) != sn]
         return ' ; '.join(parts) + ' ; look=' + '/'.join(looks), obs
     finally:
-        shutil.rmtree(tmp, ignore_errors=True)
+        if tmp is not None:
+            shutil.rmtree(tmp, ignore_errors=True)
 
 
 # ------------------------------------------------------------------ merge / append paths without a runner
@@ -1388,8 +1391,9 @@ def run_hist_impl(case, scratch):
     from pyphysim.simulations.parameters import SimulationParameters
     from pyphysim.simulations.results import SimulationResults
     np = _np()
-    tmp = tempfile.mkdtemp(prefix='c05h_', dir=scratch)
-    tmp2 = tempfile.mkdtemp(prefix='c05t_', dir=scratch)
+    # (scratch directories only when the history switches a results file on; the fresh twin never has one)
+    tmp = tempfile.mkdtemp(prefix='c05h_', dir=scratch) if 'file:1' in case['ops'] else None
+    tmp2 = None
     try:
         mat = Mat(case)
         runner = make_runner(case, mat)
@@ -1573,8 +1577,8 @@ def run_hist_impl(case, scratch):
         obs['nrefills'] = mat.nrefills
         return ' ; '.join(parts), obs
     finally:
-        shutil.rmtree(tmp, ignore_errors=True)
-        shutil.rmtree(tmp2, ignore_errors=True)
+        if tmp is not None:
+            shutil.rmtree(tmp, ignore_errors=True)
 
 
 def _pseudo(case, content):
@@ -2128,6 +2132,7 @@ def r15_rewrite(rng, c):
                             new[j] = w
                 if new != old:
                     op = 'padd:%s:%s' % (t[1], '.'.join(str(x) for x in new))
+                    c['r15setter'] = True
         elif t[0] in ('q', 'hq'):
             d, u = content_after(c['names'], c['vals'], ops, c['repmax'])
             pairs = [(x.split(':')[0], int(x.split(':')[1])) for x in op.split(':', 1)[1].split('+') if x]
@@ -2620,6 +2625,244 @@ def _oracle_grid(case, obs):
     return out
 
 
+# ------------------------------------------------------------------ R15 / R16 scenarios outside the model
+def run_r15file(case, scratch):
+    """R15: a simulation with a results file is run to the end; then ONE value is replaced by a close but
+    different one (the fixed parameter 'noise', or one element of an unpacked list) and simulate() /
+    simulate(index) is called again on the same runner. The partial results on disk were computed for the old
+    value. First principles (the property): the result stored for a combination is the merge of the repetitions
+    run FOR THAT COMBINATION. The library may refuse the call (ValueError: the partial results do not match the
+    parameters) or run the changed combinations afresh; it may not hand back repetitions of the old value."""
+    tmp = tempfile.mkdtemp(prefix='c05f_', dir=scratch)
+    try:
+        fam = case['fam']
+        mat = Mat(case)
+        runner = make_runner(case, mat)
+        runner.set_results_filename(os.path.join(tmp, 'res'))
+        runner.partial_results_folder = None
+        ch = case['change']
+        b_noise = ch[1] if ch[0] == 'scalar' else 4
+        mat.table['noise'] = {elem_key(close_value(fam, b)): b for b in range(0, 12)}
+        runner.params.add('noise', close_value(fam, b_noise))
+        out = []
+        part1, ob1 = run_op(runner, 'all', tmp)
+        if ob1['status'] != 'ok':
+            return 'first=' + ob1['status'], {'first': ob1['status']}, [
+                ('SimulationRunner.simulate', 'R15:exception:' + ob1['status'], 'the first simulate() raised')]
+        vals = {n: list(case['vals'][n]) for n in case['names']}
+        if ch[0] == 'scalar':
+            b_noise = ch[2]
+            runner.params.add('noise', close_value(fam, b_noise))
+        else:
+            vals[ch[1]][ch[2]] = ch[3]
+            call_add(runner.params, ch[1], mat.container(ch[1], vals[ch[1]], mat.kind[ch[1]]), mat)
+        ncalls1 = len(runner.calllog)
+        status = 'ok'
+        try:
+            call_simulate(runner, case['second'])
+        except ScriptExhausted:
+            status = 'Exhausted'
+        except Exception as e:
+            status = type(e).__name__
+        names, dims, n, combo = grid_facts(dict(case, vals=vals))
+        bad = None
+        checked = 0
+        if status == 'ok':
+            after = observe(runner, tmp)
+            if case['second'] == 'all':
+                stored = [(j, st.split('/')) for j, (st, sk) in enumerate(after['stats'])]
+                if len(stored) != n:
+                    bad = '%d stored results for %d variations' % (len(stored), n)
+            else:
+                i = int(case['second'].split(':')[1])
+                stored = [(i, after['store'][i][2].split('/'))] if i in after['store'] else []
+                if 0 <= i < n and not stored:
+                    bad = 'no partial results file for variation %d' % i
+            for j, f in stored:
+                want = dict(combo(j), noise=b_noise)
+                calls = [c for c in range(len(runner.calllog)) if (int(f[7]) >> c) & 1]
+                for c in calls:
+                    checked += 1
+                    if runner.calllog[c][3] != want and bad is None:
+                        bad = ('variation %d carries %r, but its stored result contains repetition #%d, which was '
+                               'run%s for %r' % (j, want, c, ' by the FIRST simulate()' if c < ncalls1 else '',
+                                                 runner.calllog[c][3]))
+                if f[0] != str(sum(runner.calllog[c][2] for c in calls)) and bad is None:
+                    bad = 'variation %d: stored sum %s is not the sum of its repetitions %r' % (j, f[0], calls)
+        viols = []
+        call = 'SimulationRunner.simulate'
+        if status not in ('ok', 'ValueError'):
+            viols.append((call, 'R15:exception:' + status, 'second simulate(%s) raised' % case['second']))
+        if bad:
+            viols.append((call, 'R15:partial-results-of-a-close-but-different-value-reused',
+                          '%s changed %s (family %s), second simulate(%s) returned normally: %s'
+                          % ('noise' if ch[0] == 'scalar' else ch[1],
+                             '%r -> %r' % ((close_value(fam, ch[1]), close_value(fam, ch[2])) if ch[0] == 'scalar'
+                                           else (close_value(fam, case['vals'][ch[1]][ch[2]]), close_value(fam, ch[3]))),
+                             fam, case['second'], bad)))
+        return 'second=%s' % status, {'status': status, 'checked': checked, 'ncalls2': len(runner.calllog) - ncalls1}, viols
+    finally:
+        shutil.rmtree(tmp, ignore_errors=True)
+
+
+def r15file_cases(rng=None, count=0):
+    """one scenario per family x kind of change x second call; `rng`: further random ones"""
+    out = []
+    base = dict(kind='r15file', rclass='R15', repmax=2, keep=['always'], outs=[1, 2, 's', 3, 1, 2] * 12, file=True,
+                look=[], logfixed=['noise'])
+    for fam in R15_FAMS:
+        kind = 'close:' + fam
+        for arr in ('', ':arr'):
+            g = dict(base, fam=fam, names=['a'], vals={'a': [3, 4]}, mat={'params': {'a': kind + arr}, 'outs': 'int'})
+            if not arr:
+                out.append(dict(g, change=['scalar', 4, 5], second='all'))
+                out.append(dict(g, change=['elem', 'a', 1, 5], second='single:1'))
+            else:
+                out.append(dict(g, change=['scalar', 4, 3], second='single:0'))
+                out.append(dict(g, change=['elem', 'a', 0, 2], second='all'))
+    for _ in range(count):
+        fam = rng.choice(R15_FAMS)
+        names, vals = gen_grid(rng, max_params=2, max_len=3, dup_p=0.0, empty_p=0.0)
+        if not names:
+            names, vals = ['a'], {'a': [1, 2]}
+        for nm in names:
+            vals[nm] = [v + 3 for v in vals[nm]]
+        nvar = 1
+        for nm in names:
+            nvar *= len(vals[nm])
+        if rng.chance(0.5):
+            b0 = rng.randint(1, 9)
+            change = ['scalar', b0, b0 + rng.choice([1, -1])]
+        else:
+            nm = rng.choice(names)
+            j = rng.below(len(vals[nm]))
+            w = _neighbour(rng, vals[nm][j], vals[nm])
+            change = ['elem', nm, j, w if w is not None else 50]
+        out.append(dict(base, fam=fam, names=names, vals=vals, repmax=rng.randint(1, 3),
+                        outs=['s' if rng.chance(0.15) else rng.randint(-3, 6) for _ in range(4 * nvar * 4 + 10)],
+                        mat={'params': {nm: 'close:%s%s' % (fam, rng.choice(['', ':arr'])) for nm in names},
+                             'outs': rng.choice(['int'] + R15_OUTS)},
+                        change=change, second=rng.choice(['all', 'all', 'single:%d' % rng.below(nvar)])))
+    return out
+
+
+def run_r16res(case):
+    """R16 on the results / parameters API without a runner: the same object in two roles, one object reused
+    for several calls; every answer must equal the one of the same call made with fresh copies of the contents
+      (a) acc.merge_all_results(acc) and Result.merge(r, r)  ==  merge of a deep copy;
+      (b) ONE results object of a repetition merged into two collectors (an empty one and a filled one), one of
+          which goes on merging: the other collector and the operand keep their values;
+      (c) SimulationParameters.create(d) with ONE dictionary d (and the lists inside) refilled between the calls:
+          an object created earlier keeps its values, the next one has the new ones."""
+    import copy
+    from pyphysim.simulations.parameters import SimulationParameters
+    from pyphysim.simulations.results import SimulationResults
+    viols = []
+    mat = Mat(case)
+    g = case['groups'][0] or [1]
+
+    def folded(vals, c0=0):
+        acc = SimulationResults()
+        for j, a in enumerate(vals):
+            acc.merge_all_results(_rep_results(case, a, c0 + j, mat))
+        return acc
+    # (a)
+    x, y = folded(g), folded(g)
+    try:
+        x.merge_all_results(x)
+        y.merge_all_results(copy.deepcopy(y))
+        if _canon_results(x, 0, case) != _canon_results(y, 0, case):
+            viols.append(('SimulationResults.merge_all_results', 'R16:same-object-in-two-roles',
+                          'repetitions %r folded, then acc.merge_all_results(acc): %s; with a deep copy as the '
+                          'operand: %s' % (g, _canon_results(x, 0, case), _canon_results(y, 0, case))))
+        x, y = folded(g), folded(g)
+        for name in x.get_result_names():
+            x[name][-1].merge(x[name][-1])
+            y[name][-1].merge(copy.deepcopy(y[name][-1]))
+        if _canon_results(x, 0, case) != _canon_results(y, 0, case):
+            viols.append(('SimulationResults.merge_all_results', 'R16:same-object-in-two-roles',
+                          'Result.merge(r, r) differs from Result.merge(r, copy of r): %s / %s'
+                          % (_canon_results(x, 0, case), _canon_results(y, 0, case))))
+    except Exception as e:
+        viols.append(('SimulationResults.merge_all_results', 'R16:same-object-in-two-roles',
+                      'merging an object with itself raises %s' % type(e).__name__))
+    # (b)
+    rep = _rep_results(case, g[0], 0, mat)
+    rep_then = _canon_results(rep, 0, case)
+    empty, filled = SimulationResults(), folded(g[1:] or [2], 1)
+    empty.merge_all_results(rep)
+    filled.merge_all_results(rep)
+    e_then = _canon_results(empty, 0, case)
+    f_then = _canon_results(filled, 0, case)
+    filled.merge_all_results(_rep_results(case, 5, 9, mat))
+    empty2 = SimulationResults()
+    empty2.merge_all_results(rep)
+    if _canon_results(empty, 0, case) != e_then or _canon_results(rep, 0, case) != rep_then \
+            or _canon_results(empty2, 0, case) != e_then:
+        viols.append(('SimulationResults.merge_all_results', 'R16:one-operand-merged-into-two-collectors',
+                      'operand %s (then %s), first collector %s (then %s), a collector filled later %s'
+                      % (_canon_results(rep, 0, case), rep_then, _canon_results(empty, 0, case), e_then,
+                         _canon_results(empty2, 0, case))))
+    del f_then
+    # (c)
+    lst = [1, 2, 3]
+    d = {'a': lst, 'k': 7}
+    p1 = SimulationParameters.create(d)
+    p1.set_unpack_parameter('a')
+    lst[:] = [4, 5]
+    d['k'] = 8
+    p2 = SimulationParameters.create(d)
+    p2.set_unpack_parameter('a')
+    got = ([c['a'] for c in p1.get_unpacked_params_list()], p1['k'], [c['a'] for c in p2.get_unpacked_params_list()],
+           p2['k'], [int(x) for x in p2.get_pack_indexes({'a': 5})])
+    if got != ([1, 2, 3], 7, [4, 5], 8, [1]):
+        viols.append(('SimulationParameters.get_unpacked_params_list', 'R16:argument-refilled-after-create',
+                      'create(d); d refilled in place; create(d): %r' % (got,)))
+    return 'ok', {'checked': 3}, viols
+
+
+def run_r16arr(case):
+    """R16: a result whose VALUE is an array that the caller refills in place for the next repetition
+    (`Result.update(buf)`, `Result.create(name, MISCTYPE, buf)`): what is stored must be the contents at the
+    time of the call - the MISC value the last contents handed over, the accumulated list the contents of every
+    update - and a later refill must not change what is stored."""
+    np = _np()
+    from pyphysim.simulations.results import Result
+    viols = []
+    ty = {'M': Result.MISCTYPE, 'S': Result.SUMTYPE}[case['ty']]
+    fills = [list(f) for f in case['fills']]
+    buf = np.zeros(len(fills[0]), dtype=np.float64)
+    r = Result('arr', ty, accumulate_values=True)
+    for f in fills:
+        buf[...] = f
+        r.update(buf)
+    buf[...] = [-7.0] * len(buf)             # the caller goes on using its buffer
+    want_list = fills
+    want_val = fills[-1] if case['ty'] == 'M' else [sum(f[j] for f in fills) for j in range(len(buf))]
+    got_list = [np.asarray(v).tolist() for v in r._value_list]
+    got_val = np.asarray(r._value).tolist()
+    if got_list != want_list or got_val != want_val:
+        viols.append(('Result.update', 'R16:array-value-kept-by-reference',
+                      '%s result updated with ONE array refilled in place with %r, then the array is overwritten '
+                      'with -7: stored value %r (contents handed over: %r), accumulated values %r (handed over: %r)'
+                      % ('MISCTYPE' if case['ty'] == 'M' else 'SUMTYPE', fills, got_val, want_val, got_list,
+                         want_list)))
+    return 'ok', {'checked': 1}, viols
+
+
+def r16res_cases(rng=None, count=0):
+    out = [dict(kind='r16res', rclass='R16', xr=['S1:2:ctor', 'R1:1:create', 'M1:2:ctor', 'C1:1:ctor', 'M0:1:addnew'],
+                groups=[[1, 2, 3]]),
+           dict(kind='r16res', rclass='R16', xr=['S0:1:ctor', 'C0:2:create', 'R0:2:ctor'], groups=[[4]]),
+           dict(kind='r16arr', rclass='R16', ty='M', fills=[[1.0, 2.0], [5.0, 6.0]]),
+           dict(kind='r16arr', rclass='R16', ty='S', fills=[[1.0, 2.0], [10.0, 20.0], [0.5, 0.25]])]
+    for _ in range(count):
+        out.append(dict(kind='r16res', rclass='R16', xr=gen_xr(rng, rng.randint(1, 5)),
+                        groups=[[rng.randint(-3, 6) for _ in range(rng.randint(1, 4))]],
+                        xtype=rng.choice(['int', 'np.int64', 'np.int16'])))
+    return out
+
+
 def _o_sim(case):
     scratch = tempfile.mkdtemp(prefix='c05_replay_')
     try:
@@ -2655,6 +2898,12 @@ def run_any(case, scratch):
     input the property covers is a failing input, not an infrastructure error."""
     kind = case.get('kind')
     try:
+        if kind == 'r15file':
+            return run_r15file(case, scratch)
+        if kind == 'r16res':
+            return run_r16res(case)
+        if kind == 'r16arr':
+            return run_r16arr(case)
         if kind == 'grid':
             impl, obs = run_grid_impl(case)
             return impl, obs, oracle_grid(case, obs)
@@ -2698,7 +2947,7 @@ ORACLES = {c: _mk(c) for c in ('SimulationRunner.simulate', 'SimulationResults.g
                                'SimulationParameters.get_pack_indexes',
                                'SimulationParameters.get_unpacked_params_list',
                                'SimulationParameters.get_num_unpacked_variations',
-                               'SimulationResults.merge_all_results', 'SimulationParameters.add',
+                               'SimulationResults.merge_all_results', 'SimulationParameters.add', 'Result.update',
                                'SimulationParameters.remove', 'SimulationParameters.set_unpack_parameter')}
 
 
@@ -2931,6 +3180,8 @@ def run_cases(ctx, cases, name='simulate'):
                     ctx.branch('R9:index=' + c['mat']['index'])
             if c['kind'] == 'grid' and obs.get('r13') is not None:
                 ctx.branch('R13:derived-objects-checked')
+            if c.get('rclass') in ('R15', 'R16'):
+                r15_r16_branches(ctx, c, obs)
             seen = set()
             for call, cls, detail in viols:
                 if (call, cls) not in seen:
@@ -2939,6 +3190,114 @@ def run_cases(ctx, cases, name='simulate'):
                     ctx.branch('oracle-fail:%s:%s' % (call, cls))
             if not viols:
                 ctx.branch('oracle-ok')
+
+
+def r15_r16_branches(ctx, c, obs):
+    m = c.get('mat') or {}
+    refused = False
+    if c['kind'] == 'hist':
+        refused = any(ob.get('kind') == 'q' and ob.get('q', {}).get('pack') == ('error', 'ValueError')
+                      for ob in obs['ops'])
+    elif c['kind'] == 'sim':
+        refused = ('error', 'ValueError') in obs['look']
+    elif c['kind'] == 'grid':
+        refused = ('error', 'ValueError') in obs['pack']
+    if c['rclass'] == 'R15':
+        for kd in set(m.get('params', {}).values()):
+            ctx.branch('R15:family=' + kd.split(':')[1])
+        if m.get('outs'):
+            ctx.branch('R15:outs=' + m['outs'].split(':')[0])
+        if c.get('r15setter'):
+            ctx.branch('R15:setter-called-with-a-close-value')
+        if refused:
+            ctx.branch('R15:close-but-absent-value-refused')
+    else:
+        if obs.get('nrefills'):
+            ctx.branch('R16:container-refilled-in-place')
+            if any(len(ob.get('refilled', [])) > 1 for ob in obs['ops']):
+                ctx.branch('R16:same-container-for-two-parameters')
+            ctx.branch('R16:earlier-variations-rechecked')
+        if m.get('share'):
+            ctx.branch('R16:one-object-in-two-roles')
+        nlook = len(c['look']) if c['kind'] != 'hist' else sum(1 for o in c['ops'] if o.startswith(('q:', 'hq:')))
+        if nlook >= 2:
+            ctx.branch('R16:fixed-values-dictionary-reused')
+            if m.get('fixed') == '0d':
+                ctx.branch('R16:fixed-value-buffers-reused')
+        if m.get('index') == '0d' and sum(1 for o in c.get('ops', []) if o.startswith('single')) >= 2:
+            ctx.branch('R16:index-buffer-reused')
+
+
+def run_oracle_only(ctx, cases):
+    """R15 / R16 scenarios that lie outside the model (partial results on disk after a value was replaced by a
+    close one; the results API with one object in two roles; array-valued results): first principles only"""
+    for c in cases:
+        impl, obs, viols = run_any(c, ctx.scratch)
+        ctx.count((c['kind'], c.get('fam'), repr(c.get('change')), c.get('second'), repr(c.get('xr')), impl),
+                  obs is not None and bool(obs.get('checked')))
+        ctx.branch('%s:%s' % (c['rclass'], c['kind']))
+        if c['kind'] == 'r15file' and obs is not None:
+            ctx.branch('R15:family=' + c['fam'])
+            if obs.get('status') == 'ValueError':
+                ctx.branch('R15:partial-results-of-a-close-value-refused')
+            elif obs.get('status') == 'ok' and obs.get('checked'):
+                ctx.branch('R15:unchanged-variation-resumed')
+        seen = set()
+        for call, cls, detail in viols:
+            if (call, cls) not in seen:
+                seen.add((call, cls))
+                ctx.fail(call, cls, c, detail)
+                ctx.branch('oracle-fail:%s:%s' % (call, cls))
+        if not viols:
+            ctx.branch('oracle-ok')
+
+
+def r15_r16_fixed_cases():
+    """seed-independent R15 / R16 scenarios (quick and thorough)"""
+    out = []
+    outs = [1, 2, 's', 3, -1, 0, 4, 2] * 12
+    for k, fam in enumerate(R15_FAMS):
+        ko = R15_OUTS[k % len(R15_OUTS)]
+        kind = 'close:' + fam
+        out.append(dict(kind='grid', rclass='R15', names=['b', 'a'], vals={'a': [3, 4, 5], 'b': [7, 8]},
+                        look=[[('a', 3)], [('a', 4)], [('a', 5)], [('a', 6)], [('a', 2)], [('b', 8), ('a', 4)],
+                              [('b', 9)], [('b', 7)]],
+                        mat={'params': {'a': kind, 'b': kind + ':arr'}, 'fixed': ['pyfloat', 'same', '0d'][k % 3]}))
+        out.append(dict(kind='hist', rclass='R15', names=['a'], vals={'a': [3, 4]}, repmax=2, keep=['always'],
+                        ops=['all', 'q:a:4', 'padd:a:4.5', 'q:a:4', 'q:a:3', 'q:a:5', 'all', 'hq:a:5', 'padd:a:5.6',
+                             'q:a:5', 'q:a:4', 'all', 'q:a:6'],
+                        outs=outs, file=False, look=[], xr=[], r15setter=True,
+                        mat={'params': {'a': kind + (':arr' if k % 2 else '')}, 'new': [kind + (':arr' if k % 2 else '')],
+                             'fixed': ['same', 'np.float64'][k % 2], 'outs': ko}))
+        out.append(dict(kind='sim', rclass='R15', names=['a'], vals={'a': [3, 4, 5]}, repmax=3,
+                        keep=[['always'], ['sumlt:4'], ['replt:2']][k % 3], file=bool(k % 2), ops=['all', 'all'],
+                        outs=outs, look=[[('a', 3)], [('a', 4)], [('a', 5)], [('a', 6)]], xr=[],
+                        mat={'params': {'a': kind}, 'fixed': 'pyfloat', 'outs': R15_OUTS[(k + 3) % len(R15_OUTS)]}))
+    r16 = {'reuse': True, 'fixed': '0d', 'index': '0d'}
+    out.append(dict(kind='hist', rclass='R16', names=['a'], vals={'a': [5, 6, 7]}, repmax=2, keep=['always'],
+                    ops=['q:a:6', 'pfill:a:6.7.5', 'q:a:6', 'all', 'hq:a:6', 'pfill:a:7.5.6', 'q:a:6', 'all', 'q:a:5',
+                         'pfill:a:9.5.6', 'hq:a:9', 'q:a:7'],
+                    outs=outs, file=False, look=[], xr=[], mat=dict(r16, params={'a': 'int64'}, new=['int64'])))
+    out.append(dict(kind='hist', rclass='R16', names=['a', 'b'], vals={'a': [1, 2], 'b': [1, 2]}, repmax=1,
+                    keep=['always'],
+                    ops=['all', 'q:a:1+b:2', 'pfill:a+b:2.3', 'q:a:2+b:3', 'q:a:1', 'all', 'q:a:3', 'pfill:a+b:4.2',
+                         'all', 'hq:b:4'],
+                    outs=outs, file=False, look=[], xr=[],
+                    mat=dict(r16, params={'a': 'float64', 'b': 'float64'}, new=['float64'], share=['a', 'b'],
+                             fixed='pyfloat')))
+    out.append(dict(kind='hist', rclass='R16', names=['a'], vals={'a': [1, 2]}, repmax=2, keep=['sumlt:3'],
+                    ops=['q:a:2', 'pfill:a:4.5.6', 'q:a:5', 'all', 'pfill:a:9', 'all', 'q:a:9', 'pfill:a:', 'q:fx0:7',
+                         'pfill:a:3.1', 'all', 'q:a:1'],
+                    outs=outs, file=False, look=[], xr=['M1:1:ctor'],
+                    mat=dict(r16, params={'a': 'list'}, new=['list'], fixed='same')))
+    out.append(dict(kind='sim', rclass='R16', names=['a'], vals={'a': [1, 2, 3]}, repmax=2, keep=['always'], file=True,
+                    ops=['single:0', 'single:2', 'single:0', 'single:1', 'all'], outs=outs,
+                    look=[[('a', 2)], [('a', 3)], [('a', 1)], [('a', 9)], [('a', 3)]], xr=[],
+                    mat=dict(r16, params={'a': 'strided'})))
+    out.append(dict(kind='grid', rclass='R16', names=['b', 'a'], vals={'a': [1, 2, 3], 'b': [1, 2, 3]},
+                    look=[[('a', 2)], [('a', 3), ('b', 1)], [('b', 2)], [('a', 9)], [('a', 1), ('b', 3)]],
+                    mat=dict(params={'a': 'int64', 'b': 'int64'}, share=['a', 'b'], reuse=True, fixed='0d')))
+    return out
 
 
 def corpus_cases():
@@ -3084,6 +3443,16 @@ def check(ctx):
                              'R10', 'R10:mixed', 'R10:outs', 'R11:non-mutating-calls-checked', 'R12',
                              'R12:insertion-order', 'R13:derived-objects-checked', 'R14', 'R14:sim', 'R14:grid',
                              'R14:mrg',
+                             'R15', 'R15:sim', 'R15:grid', 'R15:hist', 'R15:r15file', 'R15:close', 'R15:outs',
+                             'R15:family=tiny', 'R15:family=rel', 'R15:family=adj', 'R15:family=dec12',
+                             'R15:family=thr', 'R15:outs=aff', 'R15:outs=m', 'R15:setter-called-with-a-close-value',
+                             'R15:close-but-absent-value-refused', 'R15:partial-results-of-a-close-value-refused',
+                             'R15:unchanged-variation-resumed',
+                             'R16', 'R16:sim', 'R16:grid', 'R16:hist', 'R16:r16res', 'R16:r16arr',
+                             'R16:container-refilled-in-place', 'R16:same-container-for-two-parameters',
+                             'R16:one-object-in-two-roles', 'R16:earlier-variations-rechecked',
+                             'R16:fixed-values-dictionary-reused', 'R16:fixed-value-buffers-reused',
+                             'R16:index-buffer-reused', 'hist:pfill',
                              'mrg', 'mrg:start=empty', 'mrg:start=first', 'mrg:start=result', 'mrg:append=all',
                              'mrg:append=result', 'xr:in-sim', 'xr:in-hist', 'xr:S0', 'xr:S1', 'xr:R0', 'xr:R1',
                              'xr:M0', 'xr:M1', 'xr:C0', 'xr:C1', 'xr:form=ctor', 'xr:form=create',
@@ -3102,6 +3471,11 @@ def check(ctx):
         cases += [gen_rcase(rrng, rc) for _ in range(200 if quick else 1400)]
     for rc in ('R8', 'R9', 'R10', 'R12'):
         cases += [gen_rcase(rrng, rc) for _ in range(150 if quick else 900)]
+    r15rng = ctx.rng.fork('R15-R16')
+    cases += r15_r16_fixed_cases()
+    for rc in ('R15', 'R16'):
+        cases += [gen_rcase(r15rng, rc) for _ in range(130 if quick else 1400)]
+    extra = r15file_cases(r15rng, 10 if quick else 400) + r16res_cases(r15rng, 10 if quick else 400)
     cases += big_cases(quick)
     if quick:
         cases += exhaustive_cases(4, (1, 2))
@@ -3111,6 +3485,7 @@ def check(ctx):
             'every outcome mask of length <= 9 x rep_max 1..4 x 3 stop rules x 4 grids; every grid shape with '
             '0-3 parameters of lengths 1-3 x rep_max 1..3 x 2 stop rules x every mask of length <= 5 '
             '(the seeded part of the run is not exhaustive)')
+    run_oracle_only(ctx, extra)
     try:
         run_cases(ctx, cases)
     except core.Infra as e:
@@ -3127,6 +3502,8 @@ def search(ctx):
         + [gen_hist(rng) for _ in range(1000)] + [gen_hist2(rng) for _ in range(1000)] \
         + [gen_rcase(rng, rc) for rc in ('R1', 'R2', 'R5', 'R6') for _ in range(300)] + exhaustive_cases(5, (1, 2))
     cases += [gen_mrg(rng) for _ in range(3000)]
+    cases += r15_r16_fixed_cases() + [gen_rcase(rng, rc) for rc in ('R15', 'R16') for _ in range(400)] \
+        + r15file_cases(rng, 200) + r16res_cases(rng, 100)
     for c in cases:
         viols = run_any(c, ctx.scratch)[2]
         ctx.count(('search', len(ctx.distinct)), False)
